@@ -11,9 +11,10 @@ REGISTRY = {}
 SPECS = {}
 
 
-def contract(path, qualname, prop=None):
+def contract(path, qualname, prop=None, also=()):
+    """also: further properties whose checks include this contract (the obligations keep the id of `prop`)"""
     def deco(cls):
-        cls._path, cls._qualname, cls._prop = path, qualname, prop
+        cls._path, cls._qualname, cls._prop, cls._also = path, qualname, prop, tuple(also)
         REGISTRY.setdefault((path, qualname), []).append(cls)
         return cls
     return deco
@@ -59,3 +60,20 @@ def appended(new, old_, x):
 def reports_only_to(recognizer, listener):
     """ghost (verifier only): the error-listener list of an ANTLR recognizer is exactly [listener]"""
     raise SkipClause()
+
+
+# documents as trees (xml.etree Element): natively on the real objects, as datatype operations in proofs
+def kids(e):
+    return list(e)
+
+
+def first(es):
+    return es[0]
+
+
+def rest(es):
+    return es[1:]
+
+
+def is_empty(es):
+    return len(es) == 0
